@@ -86,7 +86,7 @@ fn pxref_section_sizes_total() {
     let w: [u32; 3] = kani::any();
     kani::assume(n <= i32::MAX as u32 && w[0] <= i32::MAX as u32 && w[1] <= i32::MAX as u32 && w[2] <= i32::MAX as u32);
     // all-zero widths with a huge count is the separate obligation pxref_section_zero_width
-    kani::assume(w[0] + w[1] + w[2] > 0);
+    kani::assume(w[0] as u64 + w[1] as u64 + w[2] as u64 > 0);
     let mut data: &[u8] = &buf[..];
     let strict: bool = kani::any();
     let r = if strict {
